@@ -87,8 +87,9 @@ ASSUMPTIONS = [
     'client_ids()/client_sizes() order is not asserted (documented as '
     'unspecified); a lookup of an id never written must raise',
     'checkpoints: round numbers are non-decreasing within a directory and in '
-    '[0, 10**8); root_dir contains no regex/glob metacharacter (paths are not '
-    'quantified by the property)',
+    '[0, 10**8); the checkpoint directory name is drawn from a menu that '
+    'includes regex/glob metacharacters (a+b, sweep[lr=0.1], x^y$, run(2)): the '
+    'saved state must load back from any of them (defect fixed in ed0907a)',
     'needs TensorFlow for tf.io.gfile (save_state/load_state/checkpoint)',
 ]
 
@@ -697,7 +698,7 @@ def run_state(case):
     compare(expected(saves[0]['state']), describe(serialization.load_state(path)),
             ['load_state'], notes)
     # (b) checkpoints
-    root = os.path.join(d, 'ckpt')
+    root = os.path.join(d, case.get('dirname', 'ckpt'))
     os.makedirs(root)
     require(checkpoint.load_latest_checkpoint(root) is None,
             'checkpoint:loaded_from_empty_dir')
@@ -1090,7 +1091,10 @@ def state_cases(draw, tier):
                 st.sampled_from([0, 9, 10, 99999999, 10**7])),
       min_size=n, max_size=n)))
   return {'saves': [{'round': r, 'keep': draw(st.integers(1, 3)),
-                     'state': draw(tree)} for r in rounds]}
+                     'state': draw(tree)} for r in rounds],
+          'dirname': draw(st.sampled_from(
+              ['ckpt', 'ckpt', 'exp.1', 'a+b', 'sweep[lr=0.1]', 'run(2)', 'x^y$',
+               'q?*', 'sp ace', 'checkpoint_00000007']))}
 
 
 # ------------------------------------------------------------------ labels
